@@ -240,12 +240,15 @@ def involution_pair(ctx: Ctx):
                     flips.append((src(s.test), a.targets[0].id, call_name(a.value), a.value, s))
             # conditional-expression form:  w = flip(w, ...) if flag else w   /   return flip(w, ...) if flag else w
             v = s.value if isinstance(s, (ast.Assign, ast.Return)) else None
-            if isinstance(v, ast.IfExp) and isinstance(v.body, ast.Call) and call_name(v.body) in ("flip", "transpose", "moveaxis") and v.body.args and isinstance(v.body.args[0], ast.Name) and is_name(v.orelse, v.body.args[0].id):
-                flips.append((src(v.test), v.body.args[0].id, call_name(v.body), v.body, s))
+            if isinstance(v, ast.IfExp) and isinstance(v.body, ast.Call) and call_name(v.body) in ("flip", "transpose", "moveaxis") and v.body.args and src(v.orelse) == src(v.body.args[0]):
+                # the operand may be an expression: flip(copy(x), axis=0) if flag else copy(x)
+                w_ = s.targets[0].id if isinstance(s, ast.Assign) and len(s.targets) == 1 and isinstance(s.targets[0], ast.Name) else src(v.body.args[0])
+                flips.append((src(v.test), w_, call_name(v.body), v.body, s))
         by_key = {}
         for t, w, fn, c, s in flips:
-            by_key.setdefault((t, w, fn), []).append((c, s))
-        for (t, w, fn), lst in by_key.items():
+            by_key.setdefault((t, fn), []).append((c, s, w))
+        for (t, fn), lst in by_key.items():
+            w = lst[0][2]
             if len(lst) < 2:
                 continue
             n += 1
